@@ -1,7 +1,7 @@
 #!/bin/bash
 # run_seeds.sh <Cxx>... : validates every /tmp/seed-Cxx/out/<k> and runs the property's quick check on it
 for p in "$@"; do
-  for d in /tmp/seed-$p/out/*/; do
+  for d in ${SEEDPREFIX:-/tmp/seed-}$p/out/*/; do
     [ -f "$d/patch.diff" ] || continue
     k=$(basename $d)
     echo "##### $p/$k: $(python3 -c "import json;print(json.load(open('$d/meta.json')).get('summary','')[:200])")"
